@@ -108,6 +108,7 @@ class Impl:
         self.rids = {t: RequestId.from_pus_tc(tc) for t, tc in self.tcs.items()}
         # the request IDs as the harness knows them (version 0, TC, secondary header, APID, unsegmented, count)
         self.u32 = {t: (1 << 28) | (1 << 27) | (APID << 16) | (3 << 14) | (SEQ0 + t) for t in range(0, ntc + 1)}
+        self.t_of = {self.u32[t]: t for t in range(1, ntc + 1)}
         self.tms = {}
         self.nbs = {}
 
@@ -195,15 +196,22 @@ class Impl:
         return st
 
     def view_h(self, v):
-        a = self.abstract(v)
-        out = []
-        for i in range(self.ntc):
-            out.append(None if not a["tracked"][i] else (a["acc"][i], a["sta"][i], a["stp"][i], a["cmp"][i], a["allr"][i], tuple(a["steps"][i])))
-        return tuple(out), a["foreign_keys"]
+        """(table state, number of keys that are not exactly one key per telecommand 1..ntc) - the fast form of abstract()"""
+        out = [None] * self.ntc
+        foreign = 0
+        sf = self.sf
+        for k, r in v.verif_dict.items():
+            t = self.t_of.get(key_u32(k), 0)
+            if t == 0 or out[t - 1] is not None:
+                foreign += 1
+            else:
+                out[t - 1] = (sf[r.accepted], sf[r.started], sf[r.step], sf[r.completed], bool(r.all_verifs_recvd), tuple([int(x) for x in r.step_list]))
+        return tuple(out), foreign
 
     # -- events --------------------------------------------------------------------
-    def apply(self, v, ev, decoded=False):
-        """executes one event (H vocabulary); returns (answer in model terms, raw result of add_tm or None)"""
+    def apply(self, v, ev, decoded=False, judge=True):
+        """executes one event (H vocabulary); returns (answer in model terms, raw result of add_tm or None);
+        judge=False (prefix of a case): the answer is not put into model terms"""
         k = ev[0]
         if k == "add_tc":
             # a PusTc object that is reused / a decoded copy: identity must not matter
@@ -228,6 +236,8 @@ class Impl:
         res = v.add_tm(tm)
         if res is None:
             return ("tm", None), None
+        if not judge:
+            return None, res
         rec = self.record_of(v, t) if t else None
         return ("tm", (bool(res.completed), rec is not None and res.status is rec)), res
 
@@ -371,7 +381,7 @@ def model_to_table(st, ntc):
 def ev_sig(ev):
     k = ev[0]
     if k in ("tm", "tm_var"):
-        return f"{k}/subservice={ev[2]}" + (f"/variant={ev[4]}" if k == "tm_var" else "")
+        return f"tm_var/variant={ev[4]}" if k == "tm_var" else f"tm/subservice={ev[2]}"
     if k in ("tm_nb", "remove_nb"):
         return f"{k}/field={nb_field(ev[2])}"
     return k
@@ -418,7 +428,7 @@ def run_events(rec, impl, prefix, last, decoded_last, view, exp_src, exp_dst, ex
     held = []
     try:
         for e in prefix:
-            _, res = impl.apply(v, e, False)
+            _, res = impl.apply(v, e, False, False)
             if res is not None:
                 held.append((res, bool(res.completed), res.status))
     except Exception:  # noqa: BLE001 - the shorter history is a case of its own; name its first diverging event
@@ -439,7 +449,8 @@ def run_events(rec, impl, prefix, last, decoded_last, view, exp_src, exp_dst, ex
         rec.violation(f"C16.answer/{sig}", case, ans, exp_ans)
         ok = False
     if got != exp_dst:
-        rec.violation(f"C16.state/{sig}" + (state_sig(got, exp_dst) if state_sig else ""), case, got, exp_dst)
+        suffix, g, e = state_sig(v) if state_sig else ("", got, exp_dst)
+        rec.violation(f"C16.state/{sig}{suffix}", case, g, e)
         ok = False
     for res, completed, status in held:
         if bool(res.completed) != completed or res.status is not status:
@@ -471,8 +482,14 @@ def check_edge(rec, impl, path, action, args, src_state, dst_state, decoded_last
             "source_state": src_state, "expected_state": dst_state}
     rec.traces += 1
     sig = action + (f"/subservice={args[1]}" if action in ("AddTmDone", "AddTmOpen") else "")
-    return run_events(rec, impl, [t2h(a, g) for a, g in path], t2h(action, args), decoded_last, impl.abstract, src_state, dst_state,
-                      EXPECT[action], sig, case, _diff_sig)
+    ntc = impl.ntc
+
+    def state_sig(v):
+        got = impl.abstract(v)
+        return _diff_sig(got, dst_state), got, dst_state
+
+    return run_events(rec, impl, [t2h(a, g) for a, g in path], t2h(action, args), decoded_last, impl.view_h, (model_to_table(src_state, ntc), 0),
+                      (model_to_table(dst_state, ntc), 0), EXPECT[action], sig, case, state_sig)
 
 
 # ------------------------------------------------------------------ engine H (a): table graph, probes, extended states
@@ -560,7 +577,7 @@ def bfs_impl(rec, ntc, stepids, maxsteps, subservices, part, parts, probes="none
                 try:
                     v = impl.fresh()
                     for e in h:
-                        impl.apply(v, e, False)
+                        impl.apply(v, e, False, False)
                     canon[st] = dump_key(v)
                 except Exception:  # noqa: BLE001 - reported where that history is a case
                     pass
@@ -662,7 +679,7 @@ def run_edges(rec, item, data):
             try:
                 v = impl.fresh()
                 for a, g in paths[sid]:
-                    impl.apply(v, t2h(a, g), False)
+                    impl.apply(v, t2h(a, g), False, False)
                 canon[sid] = dump_key(v)
             except Exception:  # noqa: BLE001 - reported where that path is a case
                 pass
@@ -744,13 +761,14 @@ def shards(tier):
 
     if q:
         bfs(16, 1, [1, 2], 3, subs, "full")
-        sl(8, 1, subs, [1], True, 5)
+        sl(32, 1, subs, [1], True, 6)
         sl(16, 2, [1, 2, 4, 6], [1], False, 5)
     else:
         bfs(32, 2, [1, 2], 2, subs, "none")
         bfs(16, 1, [1, 2, 3], 4, subs, "full")
         bfs(16, 3, [1], 1, [1, 2, 3, 5, 6, 7], "none")
         bfs(32, 2, [1], 1, subs, "reduced")
+        sl(64, 1, subs, [1], True, 7)
         sl(32, 1, subs, [1, 2], True, 6)
         sl(32, 2, [1, 2, 4, 6], [1], False, 6)
     return items
